@@ -617,7 +617,7 @@ def _run(ctx):
                 "value": ("a<b" + ht.HTML("<i>")).as_string()})
     for _ in range(ctx.budget(3000, 2000000)):
         e = rand_expr(rng, rng.choice([1, 2, 3, 4, 5, 6, 8]))
-        check_expr(ctx, e)
+        ctx.guard(check_expr, ctx, e, witness={"expr": e})
         lv = leaves(e)
         nt = (any(x["leaf"] == "html" for x in lv) and any(x["leaf"] == "str" and set(x["v"]) & set("&<>") for x in lv) and n_ops(e) >= 2)
         ctx.case(e, nontrivial=nt)
